@@ -19,7 +19,8 @@ RULE = (
     "case = one (typegraph, query node, binding subset of size<=3) query of "
     "HasCombination (plus IsVisible / Filter(strict) / Bindings for "
     "singletons) on a Program built for that graph and never mutated "
-    "afterwards, compared with a naive backward "
+    "afterwards (cyclic graphs: a fresh Program per query), compared with a "
+    "naive backward "
     "path-enumeration reference. Non-trivial = |subset|>=2, or a goal with "
     ">=2 origins or >=2 source sets, or CanHaveCombination true while the "
     "reference/solver says impossible. distinct = distinct (graph spec, node, "
@@ -44,6 +45,8 @@ def check_graph(ctx, spec, kind, max_queries=None, triples=None, tag="E",
   ref = tg.Reference(spec, strict_conds=(kind == "cond"))
   multi = [len(o) >= 2 or any(len(ss) >= 2 for _, ss in o)
            for _, o in spec["bindings"]]
+  for lb, _, _ in spec.get("late") or []:
+    multi[lb] = True
   nq = 0
   subsets = list(tg.subsets_upto(range(nb), 2))
   if triples is None:
@@ -57,7 +60,13 @@ def check_graph(ctx, spec, kind, max_queries=None, triples=None, tag="E",
         return
       nq += 1
       goals = [binds[i] for i in S]
-      got = nodes[node].HasCombination(goals)
+      if kind == "any":
+        # Cyclic graphs: every query on its own freshly built Program, so that
+        # query-order effects of the solver's memo (C08's subject, see the
+        # known finding there) cannot fake or mask a C07 result.
+        got = ask_fresh(spec, node, S)
+      else:
+        got = nodes[node].HasCombination(goals)
       can = nodes[node].CanHaveCombination(goals)
       case = {"spec": spec, "node": node, "subset": list(S), "kind": kind}
       nontriv = len(S) >= 2 or any(multi[i] for i in S)
@@ -92,8 +101,10 @@ def check_graph(ctx, spec, kind, max_queries=None, triples=None, tag="E",
         if len(S) >= 2:
           for r in range(1, len(S)):
             for sub in itertools.combinations(S, r):
-              ok = nodes[node].HasCombination([binds[i] for i in sub])
-              ctx.check(ok, "accepted-set-has-rejected-subset",
+              ok = (ask_fresh(spec, node, sub) if kind == "any" else
+                    nodes[node].HasCombination([binds[i] for i in sub]))
+              ctx.check(ok, "accepted-set-has-rejected-subset:" +
+                        graph_class(spec),
                         "%s accepted at n%d but subset %s rejected" %
                         (list(S), node, list(sub)), case)
       # CanHaveCombination itself is plain reachability of an origin per goal
@@ -123,6 +134,18 @@ def check_graph(ctx, spec, kind, max_queries=None, triples=None, tag="E",
                classes=cls)
 
 
+def graph_class(spec):
+  return ("acyclic" if tg.is_acyclic(spec) else "cyclic") + (
+      "+conditions" if spec.get("conds") else "")
+
+
+def ask_fresh(spec, node, S):
+  prog, nodes, _, binds = tg.build(spec)   # keep the Program alive
+  r = nodes[node].HasCombination([binds[i] for i in S])
+  del prog
+  return r
+
+
 def fmt_spec(spec):
   b = "; ".join("b%d:v%d@%s" % (i, v, ",".join(
       "n%d<-%s" % (w, "|".join("{" + ",".join("b%d" % x for x in ss) + "}"
@@ -130,12 +153,15 @@ def fmt_spec(spec):
                 for i, (v, o) in enumerate(spec["bindings"]))
   e = " ".join("%d>%d" % tuple(x) for x in spec["edges"])
   c = (" conds=%s" % spec["conds"]) if spec.get("conds") else ""
+  if spec.get("late"):
+    c += " late-origins=%s" % spec["late"]
   return "nodes=%d edges=[%s] %s%s" % (spec["n"], e, b, c)
 
 
 def tg_key(spec):
   return repr((spec["n"], spec["edges"], spec["bindings"],
-               sorted((spec.get("conds") or {}).items())))
+               sorted((spec.get("conds") or {}).items()),
+               spec.get("late")))
 
 
 # ------------------------------------------------------------ exhaustive
@@ -182,11 +208,33 @@ def enum_specs(n, nb, nv, max_origins, max_ss_size, max_ssets):
                           for b in bl]}
 
 
+def enum_specs_late(n, nb, nv, max_origins, max_ss_size, max_ssets):
+  """Each base spec extended by ONE late AddOrigin whose source set may name
+  bindings created after the target (kept acyclic)."""
+  for spec in enum_specs(n, nb, nv, max_origins, max_ss_size, max_ssets):
+    k = len(spec["bindings"])
+    sets = [()]
+    for r in (1, 2):
+      sets += list(itertools.combinations(range(k), r))
+    for b in range(k):
+      for w in range(n):
+        for ss in sets:
+          if b in ss or not tg.sources_acyclic_with(spec, b, ss):
+            continue
+          if not any(x > b for x in ss):
+            continue   # already covered by the base families
+          s2 = dict(spec)
+          s2["late"] = [[b, w, list(ss)]]
+          yield s2
+
+
 def exhaustive(ctx, families, cap):
   i = 0
   complete = True
   for fam in families:
-    for spec in enum_specs(*fam):
+    late = fam[0] == "late"
+    gen = enum_specs_late(*fam[1:]) if late else enum_specs(*fam)
+    for spec in gen:
       i += 1
       if cap is not None and i > cap:
         complete = False
@@ -241,6 +289,18 @@ def spec_strategy(mode):
         bindings.append([v, origins])
     # interleave variables so that "earlier bindings" mixes variables
     spec = {"n": n, "edges": edges, "nv": nv, "bindings": bindings}
+    late = []
+    for b, w, ss in draw(st.lists(st.tuples(
+        st.integers(0, len(bindings) - 1), st.integers(0, n - 1),
+        st.lists(st.integers(0, len(bindings) - 1), max_size=2, unique=True)),
+                                  max_size=3)):
+      spec["late"] = late
+      if b not in ss and tg.sources_acyclic_with(spec, b, ss):
+        late.append([b, w, sorted(ss)])
+    if late:
+      spec["late"] = late
+    else:
+      spec.pop("late", None)
     if mode in ("cond", "cyclic"):
       cn = draw(st.lists(st.tuples(st.integers(0, n - 1),
                                    st.integers(0, len(bindings) - 1)),
@@ -263,8 +323,8 @@ def random_search(ctx, n_examples):
       k = kind
       if mode == "cyclic" and tg.is_acyclic(spec) and not spec.get("conds"):
         k = "exact"
-      check_graph(ctx, spec, k, max_queries=4000, triples=triples, tag="R",
-                  sample=True)
+      check_graph(ctx, spec, k, max_queries=4000 if k != "any" else 600,
+                  triples=triples, tag="R", sample=True)
     hyp_run(ctx, spec_strategy(mode), body, max(1, int(n_examples * share)),
             label=mode)
 
@@ -273,10 +333,13 @@ def random_search(ctx, n_examples):
 
 # (n nodes, n bindings, n vars, max origins, max source-set size, max ssets)
 FAM_QUICK = [(1, 2, 2, 1, 1, 2), (2, 2, 2, 2, 1, 2), (3, 2, 2, 2, 1, 2),
-             (2, 3, 2, 1, 2, 1), (3, 3, 2, 1, 2, 1), (4, 2, 2, 1, 1, 2)]
+             (2, 3, 2, 1, 2, 1), (3, 3, 2, 1, 2, 1), (4, 2, 2, 1, 1, 2),
+             ("late", 1, 3, 2, 1, 1, 2), ("late", 2, 2, 2, 1, 1, 2),
+             ("late", 2, 3, 2, 1, 1, 1)]
 FAM_THOROUGH = FAM_QUICK + [(3, 3, 2, 2, 1, 1), (4, 3, 2, 1, 2, 1),
                             (3, 3, 2, 1, 2, 2), (3, 4, 2, 1, 1, 1),
-                            (4, 3, 3, 1, 2, 2)]
+                            (4, 3, 3, 1, 2, 2), ("late", 2, 3, 2, 1, 2, 2),
+                            ("late", 3, 3, 2, 1, 1, 1)]
 
 
 def run_shard(ctx):
@@ -297,3 +360,15 @@ def replay(ctx, case):
   spec = case["spec"]
   kind = case.get("kind", "exact")
   check_graph(ctx, spec, kind, tag="replay")
+
+
+def confirm_known(entry):
+  """Does the recorded input still violate the property?"""
+  from vlib.run import Ctx
+  c = Ctx(ID, "quick", 0, 0, 1, [])
+  try:
+    check_graph(c, entry["input"]["spec"], entry["input"].get("kind", "any"),
+                tag="known")
+  except Violation as v:
+    return v.signature == entry["signature"]
+  return False
